@@ -186,7 +186,9 @@ func runC05(c *Ctx) {
 		}
 		for _, pc := range find(fn, callTo(putCache())) {
 			a := argsOf(pc)
-			if !isFilter(a[len(a)-1]) {
+			// the decoded filter, or the query's targetFilter, which (above)
+			// only ever holds a decoded and, by C05.G1, validated filter
+			if !isFilter(a[len(a)-1]) && !loadsField(q("targetFilter"))(a[len(a)-1]) {
 				okKept = false
 			}
 		}
@@ -556,6 +558,57 @@ func runC05(c *Ctx) {
 			okFD = ir.DerivesFrom(st.(*ssa.Store).Val, func(x ssa.Value) bool { return fieldAddrOf(bhResp)(x) })
 		}
 		c.verdict(okFD, c.nm(hr)+" | persisted record is keyed by response.BlockHash", c.P.Pos(hr.Pos()), "FilterData.BlockHash = &response.BlockHash", "the filter is persisted under a hash other than the response's block hash")
+	})
+
+	c.rule("C05.V5", "a filter is filed under the block it was validated for: in cfiltersQuery.handleResponse every putFilterToCache call and every record handed to the batch writer carries the block hash of this response (&response.BlockHash) together with the filter decoded from this response's data (gcs.FromNBytes(.., response.Data)); no other key (the query's target hash, a hash from an earlier response) is ever paired with it", func() {
+		fn := c.fn(fnCFResp)
+		fromN := c.funcObj(pGcs, "FromNBytes")
+		bh := c.field(pWire, "MsgCFilter", "BlockHash")
+		isRespHash := func(v ssa.Value) bool {
+			fa, ok := ir.Strip(v).(*ssa.FieldAddr)
+			return ok && ir.FieldOfAddr(fa) == bh
+		}
+		isFilter := func(v ssa.Value) bool {
+			e, ok := ir.Strip(c.actual(ir.Strip(v))).(*ssa.Extract)
+			return ok && e.Index == 0 && valIsCallTo(fromN)(e.Tuple)
+		}
+		n := 0
+		for _, in := range find(fn, callTo(putCache())) {
+			n++
+			a := argsOf(in)
+			okv := len(a) == 3 && isRespHash(a[0]) && isFilter(a[2])
+			// the one other sound pair: the query's target under its own hash
+			// (targetFilter is assigned only for response.BlockHash == targetHash, C05.V3)
+			if !okv && len(a) == 3 {
+				if fa, isFa := ir.Strip(a[0]).(*ssa.FieldAddr); isFa && ir.FieldOfAddr(fa) == q("targetHash") && loadsField(q("targetFilter"))(a[2]) {
+					okv = true
+				}
+			}
+			c.verdict(okv, c.nm(fn)+" | cache entry = (this response's block hash, the filter decoded from it)", c.at(in), "putFilterToCache(&response.BlockHash, .., filter)", "the filter cache is written with a key other than this response's block hash or a value other than the filter decoded from this response: a later lookup of that key returns a filter of another block", c.at(in))
+		}
+		c.verdict(n >= 1, c.nm(fn)+" | putFilterToCache calls", c.P.Pos(fn.Pos()), fmt.Sprintf("%d call(s)", n), "no putFilterToCache call found in the response handler")
+		fdHash := c.field("filterdb", "FilterData", "BlockHash")
+		fdFilter := c.field("filterdb", "FilterData", "Filter")
+		m := 0
+		ir.Instrs(fn, func(in ssa.Instruction) {
+			st, ok := in.(*ssa.Store)
+			if !ok {
+				return
+			}
+			fa, ok := st.Addr.(*ssa.FieldAddr)
+			if !ok {
+				return
+			}
+			switch ir.FieldOfAddr(fa) {
+			case fdHash:
+				m++
+				c.verdict(isRespHash(st.Val), c.nm(fn)+" | persisted record's block hash is this response's", c.at(in), "&response.BlockHash", "the record handed to the filter database carries a block hash other than this response's", c.at(in))
+			case fdFilter:
+				m++
+				c.verdict(isFilter(st.Val), c.nm(fn)+" | persisted record's filter is the one decoded from this response", c.at(in), "filter", "the record handed to the filter database carries a filter other than the one decoded from this response", c.at(in))
+			}
+		})
+		c.verdict(m >= 2, c.nm(fn)+" | persisted record fields", c.P.Pos(fn.Pos()), fmt.Sprintf("%d field store(s)", m), "the FilterData record built for the batch writer was not found")
 	})
 
 	c.rule("C05.W1", "only the validating handler feeds the filter cache and the persistent filter store: FilterCache.Put only in putFilterToCache, called only from handleResponse; AddItem only from handleResponse; FilterDB.PutFilters only as the batch writer's PutItems (wired in NewChainService)", func() {
